@@ -9,7 +9,7 @@ passes with it, the demo FAILS with it and PASSES without it. Only then are the 
 against it (lib/mutant.py: applied to /repo, evidence redirected, always reverted) and the
 result stored under /verif/seeded/<ID>-<a|b>/ (patch.diff, demo.rs, note.md, meta.json).
 """
-import json, os, shutil, subprocess, sys, time
+import fcntl, json, os, shutil, subprocess, sys, time
 ROOT = os.path.dirname(os.path.dirname(os.path.abspath(__file__)))
 pid, v, checks = sys.argv[1], sys.argv[2], sys.argv[3]
 tier = sys.argv[4] if len(sys.argv) > 4 else "quick"
@@ -17,8 +17,11 @@ tier = sys.argv[4] if len(sys.argv) > 4 else "quick"
 src = os.environ.get("SEEDED_SRC") or f"/tmp/wt-{pid}/out"
 store_name = os.environ.get("SEEDED_NAME") or f"{pid}-{v}"
 diff, demo, note = f"{src}/{v}.diff", f"{src}/{v}_demo.rs", f"{src}/{v}.md"
-WT = "/tmp/confirm-wt"
-env = dict(os.environ, CARGO_NET_OFFLINE="true", CARGO_TARGET_DIR="/tmp/confirm-target")
+# SEEDED_SLOT=<n> gives this run its own scratch worktree and build directory, so that several
+# confirmations can run side by side; the step that patches /repo is serialised by a file lock.
+SLOT = os.environ.get("SEEDED_SLOT", "")
+WT = "/tmp/confirm-wt" + SLOT
+env = dict(os.environ, CARGO_NET_OFFLINE="true", CARGO_TARGET_DIR="/tmp/confirm-target" + SLOT)
 def sh(cmd, **kw): return subprocess.run(cmd, shell=True, capture_output=True, text=True, env=env, **kw)
 for f in (diff, demo): assert os.path.exists(f), f"missing {f}"
 if not os.path.isdir(WT):
@@ -50,7 +53,9 @@ confirmed = all(conf.get(k) for k in ("only_src", "applies", "demo_passes_withou
 print(f"{store_name}: confirmation:", {k: conf.get(k) for k in ("only_src", "applies", "demo_passes_without_change", "suite_passes_with_change", "demo_fails_with_change")})
 results = {}
 if confirmed:
-    r = subprocess.run([os.path.join(ROOT, "lib/mutant.py"), diff, checks, tier], capture_output=True, text=True, cwd=ROOT)
+    with open("/tmp/verif-mutant.lock", "w") as lk:
+        fcntl.flock(lk, fcntl.LOCK_EX)
+        r = subprocess.run([os.path.join(ROOT, "lib/mutant.py"), diff, checks, tier], capture_output=True, text=True, cwd=ROOT)
     print(r.stdout.strip())
     for line in r.stdout.splitlines():
         p = line.split()
